@@ -379,8 +379,15 @@ func mayReturnNil(e *flow.Eval, r *ssa.Return, ei int) bool {
 	t := e.Select(v, nil, r)
 	if t.Op == "call" {
 		switch t.Val {
-		case "errors.New", "fmt.Errorf", "pkgerrors.New", "pkgerrors.Errorf", "pkgerrors.Wrap", "pkgerrors.Wrapf":
+		case "errors.New", "fmt.Errorf", "pkgerrors.New", "pkgerrors.Errorf":
 			return false
+		case "pkgerrors.Wrap", "pkgerrors.Wrapf", "pkgerrors.WithStack", "pkgerrors.WithMessage", "pkgerrors.WithMessagef":
+			// Wrap(nil, …) is nil: the result is nil exactly when the wrapped error is
+			if len(t.Args) == 0 {
+				return true
+			}
+			pc := e.PathCond(r.Block(), nil)
+			return !flow.Implies(pc, flow.FNot(flow.Eq(t.Args[0], flow.Nil())))
 		}
 	}
 	if g, ok := v.(*ssa.UnOp); ok && g.Op == token.MUL {
